@@ -433,7 +433,9 @@ class FcpV2Transformer(Transformer):
             return error(f"Cannot read file {filename.name}: {e}")
 
         try:
-            self.error_logger.add_source(filename.name, source)
+            self.error_logger.add_source(
+                filename.name, source, filename, pathlib.Path(filename).resolve()
+            )
             fcp_ast = fcp_parser.parse(source)
         except (UnexpectedCharacters, UnexpectedEOF) as e:
             line = _get_error_line(e, source)
@@ -584,7 +586,7 @@ def _get_fcp(
     logger: Logger,
 ) -> Result[v2.FcpV2, FcpError]:
     source = filesystem_proxy.read(filename)
-    logger.add_source(filename.name, source)
+    logger.add_source(filename.name, source, filename)
     try:
         fcp_ast = fcp_parser.parse(source)
     except (UnexpectedCharacters, UnexpectedEOF) as e:
